@@ -221,9 +221,7 @@ def encDb (K : Bytes) (niSize : Nat) :
     let (dummies, t1) ← takeBytesN cfg.idSize.toNat (2 ^ p - ni) t
     let tk ← token cfg lv K w
     let (cs, t2) ← encAll cfg.ske lv tk.Ki (ids ++ dummies) t1
-    let nb ← match intToBytesNat ni niSize with
-      | .ok b => pure b
-      | .error _ => throw .overflowError
+    let nb ← intToBytesNat ni niSize                   -- OverflowError when the length does not fit
     let (niP, t3) ← skeEncrypt cfg.ske lv tk.KiP nb t2
     let Ts' ← pushAt Ts p (tk.li, cs.flatten)
     encDb K niSize rest Ts' (S ++ [(tk.liP, niP)]) t3
@@ -237,7 +235,9 @@ def padLevels (tt : Nat) : Nat → List (List (Bytes × Bytes)) → Tape → Exc
     let (more, t3) ← padLevels tt (i + 1) rest t2
     pure ((L ++ fs) :: more, t3)
 
-def setup (K : Bytes) (db : DB) (t : Tape) : Except Err (ANSSEDB × Tape) := do
+/-- the pair lists of `_Enc`, before they are turned into hash tables: (S with its padding, the padded level lists) -/
+def setupLists (K : Bytes) (db : DB) (t : Tape) :
+    Except Err (List (Bytes × Bytes) × List (List (Bytes × Bytes)) × Tape) := do
   let N := db.total
   if N = 0 then throw .valueError
   let tt := clog2 N
@@ -247,7 +247,11 @@ def setup (K : Bytes) (db : DB) (t : Tape) : Except Err (ANSSEDB × Tape) := do
   let (Ts', t3) ← padLevels cfg lv tt 0 Ts t2
   let (nlen, t4) ← CT14.cipherLen cfg.ske lv cfg.kPrime niSize t3
   let (fs, t5) ← fillers cfg.lPrime.toNat nlen (2 ^ tt - S.length) t4
-  pure ({ HTS := buildTable (S ++ fs), HTL := Ts'.map buildTable }, t5)
+  pure (S ++ fs, Ts', t5)
+
+def setup (K : Bytes) (db : DB) (t : Tape) : Except Err (ANSSEDB × Tape) := do
+  let (SL, TL, t') ← setupLists cfg lv K db t
+  pure ({ HTS := buildTable SL, HTL := TL.map buildTable }, t')
 
 def search (edb : ANSSEDB) (tk : ANSSToken) : Except Err (List Bytes) :=
   match edb.HTS.get tk.liP with
@@ -263,6 +267,31 @@ def search (edb : ANSSEDB) (tk : ANSSToken) : Except Err (List Bytes) :=
     | some d => do
       let cs ← parseByCount d (2 ^ p : Nat)
       decAll cfg.ske lv tk.Ki (cs.take ni)
+
+/-! the hypotheses of the ANSS16 theorems as a computation on this run -/
+
+def nodupBy (l : List Bytes) : Bool :=
+  match l with
+  | [] => true
+  | a :: as => !as.contains a && nodupBy as
+
+def goodTapeB (t : Tape) : Bool :=
+  t.all fun d => match d with
+    | .bytes b => !(b.length == 16 && allZero b)
+    | _ => true
+
+def hypsB (K : Bytes) (db : DB) (t : Tape) (absent : List Bytes) : Bool :=
+  goodTapeB t &&
+  (match padLoop cfg.idSize.toNat (2 ^ clog2 db.total) (2 ^ clog2 db.total + 1) db db.total t with
+   | .ok (pdb, _) => db.all (fun p => pdb.contains p)
+   | .error _ => false) &&
+  (match setupLists cfg lv K db t with
+   | .ok (SL, TL, _) =>
+     nodupBy (SL.map (·.1)) && TL.all (fun l => nodupBy (l.map (·.1))) &&
+     absent.all (fun w => match token cfg lv K w with
+       | .ok tk => !(SL.map (·.1)).contains tk.liP
+       | .error _ => false)
+   | .error _ => false)
 
 end ANSS16
 end SSEPy.Sch
